@@ -20,7 +20,7 @@ ASSUMPTIONS = [
 ]
 EXHAUSTIVE = "the (d, c, r, engine, wrap width) grid described in the rule"
 REQUIRED = ["successful_reads", "cells_compared", "cases_more_columns_than_declared", "cases_fewer_columns_than_declared",
-            "cases_wrapped", "cases_no_curve_section", "nan_filled_curves_checked", "unnamed_extra_curves_checked", "cases_declared_delimiter", "cases_with_readings_next_to_null"]
+            "cases_wrapped", "cases_no_curve_section", "nan_filled_curves_checked", "unnamed_extra_curves_checked", "cases_declared_delimiter", "cases_with_readings_next_to_null", "text_columns_compared"]
 SOFT_DEADLINE = {"quick": 90, "thorough": 1200}
 LEVEL_TEXT = ("Exploration with a cell-by-cell oracle: coordinates are encoded in the values, so any shifted, merged or "
               "reordered column is visible wherever it happens.")
@@ -43,13 +43,18 @@ NEAR_NULL = ["-999.24", "-999.2501", "-999.26", "-999.25", "-999.249999", "-999.
 
 
 def celltok(case, i, j):
-    """The token written for cell (i, j): its coordinates, or - with 'nearnull' - a reading next to (or equal to) the NULL -999.25."""
+    """The token written for cell (i, j): its coordinates, or - with 'nearnull' - a reading next to (or equal to) the NULL -999.25;
+    with 'textcol' = k the cells of column k are labels (time stamps, station names) that carry their coordinates as text."""
+    if case.get("textcol") is not None and j == case["textcol"]:
+        return "R%dC%d" % (i + 1, j + 1)
     if case.get("nearnull") and (i + 2 * j) % 3 == 0:
         return NEAR_NULL[(i * 7 + j) % len(NEAR_NULL)]
     return cellv(i, j, bool(case.get("neg")))
 
 
 def cellwant(case, i, j):
+    if case.get("textcol") is not None and j == case["textcol"]:
+        return celltok(case, i, j)
     x = float(celltok(case, i, j))
     return float("nan") if (j > 0 and x == -999.25) else x
 
@@ -87,6 +92,13 @@ def grid(tier):
             for engine in ("numpy", "normal"):
                 for wrap in (None, c if d == c else None):
                     yield {"d": d, "c": c, "r": r, "engine": engine, "wrap": wrap, "noise": None, "after": False, "nearnull": True}
+    for tc in (0, 1):                       # a column of labels (first or second), with fewer / equal / more columns than declared curves
+        for d, c in ((5, 3), (3, 3), (2, 4), (4, 2), (None, 3), (6, 2)):
+            if tc >= c:
+                continue
+            for r in (1, 3):
+                for engine in ("numpy", "normal"):
+                    yield {"d": d, "c": c, "r": r, "engine": engine, "wrap": None, "noise": None, "after": r == 3, "textcol": tc}
     for r in (19, 20, 21, 22, 23):           # around the sniffing window of 21 data lines
         for d, c in ((3, 3), (2, 4), (5, 3), (None, 2)):
             for engine in ("numpy", "normal"):
@@ -112,7 +124,8 @@ def random_case(rng, tier):
     return {"d": d, "c": c, "r": r, "engine": rng.choice(["numpy", "normal"]), "wrap": wrap,
             "noise": rng.choice([None, None, "blank", "comment"]) if wrap is None else None,
             "after": rng.random() < 0.3, "dlm": rng.choice([None, None, "COMMA", "TAB", "COMMA_PADDED"]) if wrap is None else None,
-            "neg": rng.random() < 0.3, "digitnames": rng.random() < 0.15, "nearnull": rng.random() < 0.15}
+            "neg": rng.random() < 0.3, "digitnames": rng.random() < 0.15, "nearnull": rng.random() < 0.15,
+            "textcol": rng.choice([0, 1]) if rng.random() < 0.12 and wrap is None else None}
 
 
 def build(case):
@@ -192,7 +205,12 @@ def run_case(case, ctx):
         if j < c:
             want = np.array([cellwant(case, i, j) for i in range(r)])
             ctx.count("cells_compared", r)
-            if data.shape != want.shape or data.dtype.kind != "f" or not np.array_equal(data, want, equal_nan=True):
+            if want.dtype.kind == "U":
+                ctx.count("text_columns_compared")
+                # blanks that pad a COMMA/TAB delimiter stay in a text cell (C09's known finding): C07 judges the binding, not the padding
+                if data.shape != want.shape or [str(x).strip() for x in data.tolist()] != want.tolist():
+                    V("cell-displaced:text-column:" + tag, "curve #%d holds %s, text column %d of the data is %s" % (j, _a(data), j, _a(want)), detail)
+            elif data.shape != want.shape or data.dtype.kind != "f" or not np.array_equal(data, want, equal_nan=True):
                 V("cell-displaced:" + tag, "curve #%d holds %s, column %d of the data is %s" % (
                     j, _a(data), j, _a(want)), detail)
         else:
@@ -203,7 +221,7 @@ def run_case(case, ctx):
         ctx.count("cases_declared_delimiter")
     if case.get("nearnull"):
         ctx.count("cases_with_readings_next_to_null")
-    ctx.case_done([d, c, "r1" if r == 1 else "r2-5" if r <= 5 else "r>5", case["engine"], case["wrap"], case["noise"], case["after"], case.get("dlm"), case.get("neg"), case.get("digitnames"), case.get("nearnull")],
+    ctx.case_done([d, c, "r1" if r == 1 else "r2-5" if r <= 5 else "r>5", case["engine"], case["wrap"], case["noise"], case["after"], case.get("dlm"), case.get("neg"), case.get("digitnames"), case.get("nearnull"), case.get("textcol")],
                   nontrivial=r * c >= 2)
     if case["wrap"] or rel != "eq":
         ctx.sample({"case": case, "text": text, "keys": las.keys()}, limit=4)
